@@ -419,6 +419,42 @@ func (w *world) call(bs blockstore.Blockstore, f []string) string {
 			return errOut(err)
 		}
 		return fmt.Sprintf("found:%d", n)
+	case "viewerr": // View whose callback returns nil (0) / a generic error (1) / ipld.ErrNotFound of ANOTHER cid (2)
+		kind := vh.Atoi(f[2])
+		k := keyArg(f[1])
+		n, called := -1, false
+		cb := func(b []byte) error {
+			n, called = len(b), true
+			switch kind {
+			case 1:
+				return errors.New("callback failed")
+			case 2:
+				other := 0
+				if k >= 0 {
+					other = (k + 1) % len(w.p.blks)
+				}
+				return ipld.ErrNotFound{Cid: w.p.cid(other)}
+			}
+			return nil
+		}
+		var err error
+		if v, ok := bs.(blockstore.Viewer); ok {
+			err = v.View(ctx, w.p.cid(k), cb)
+		} else { // a store without Viewer: callers use Get and run the callback themselves
+			var b blocks.Block
+			if b, err = bs.Get(ctx, w.p.cid(k)); err == nil {
+				err = cb(b.RawData())
+			}
+		}
+		switch {
+		case called && err != nil:
+			return fmt.Sprintf("cb:%d", kind) // the callback's own error came back (whatever its identity)
+		case called && kind != 0:
+			return "cb-error-lost"
+		case err != nil:
+			return errOut(err)
+		}
+		return fmt.Sprintf("found:%d", n)
 	case "del":
 		if err := bs.DeleteBlock(ctx, w.p.cid(keyArg(f[1]))); err != nil {
 			return "err"
@@ -1178,7 +1214,11 @@ func genSeq(r *vh.Rand, tier string, id string) vh.Case {
 		case k < 8:
 			c.Ops = append(c.Ops, fmt.Sprintf("size %s %d", keyTok(r, g.n), fl))
 		case k < 10:
-			c.Ops = append(c.Ops, fmt.Sprintf("view %s %d", keyTok(r, g.n), fl))
+			if r.Chance(1, 3) {
+				c.Ops = append(c.Ops, fmt.Sprintf("viewerr %s %d", keyTok(r, g.n), r.Intn(3)))
+			} else {
+				c.Ops = append(c.Ops, fmt.Sprintf("view %s %d", keyTok(r, g.n), fl))
+			}
 		case k < 13:
 			c.Ops = append(c.Ops, fmt.Sprintf("del %s %d", keyTok(r, g.n), fl))
 		case k < 16:
